@@ -405,13 +405,18 @@ Section Face.
   Definition c17_ref (data : list A) (r : row) : B :=
     agg (map (fun x => nth (Z.to_nat x) data d) (corners r)).
 
+  Lemma c17_face_row_with_body S t data :
+    t <> [] -> c17_face_row_with agg S t data = c17_face_row_body agg S t data.
+  Proof. destruct t; [intros H; contradiction|reflexivity]. Qed.
+
   Theorem c17_face_row_with_spec m t S data :
+    t <> [] ->
     std_table m t -> c17_nodes_ok t (length data) ->
     c17_is_argsort (n_nodes_per_face t) S ->
     exists res, c17_face_row_with agg S t data = Some res /\ length res = length t /\
       forall f r, nth_error t f = Some r -> nth_error res f = Some (Some (c17_ref data r)).
   Proof.
-    intros Ht Hn Hs.
+    intros Hne Ht Hn Hs.
     destruct (c17_gathers_spec t S Hs) as [G1 G2].
     pose proof Hs as [Hperm _].
     assert (Hlen : length (n_nodes_per_face t) = length t) by (unfold n_nodes_per_face; apply map_length).
@@ -436,7 +441,7 @@ Section Face.
         pose proof (c17_corners_nonneg m t _ Ht Hr) as H0.
         unfold c17_nodes_ok in Hn. rewrite Forall_forall in Hn. pose proof (Hn _ Hr) as H1.
         rewrite Forall_forall in *. intros x Hx. split; auto. }
-    unfold c17_face_row_with. rewrite Hws.
+    rewrite (c17_face_row_with_body S t data Hne). unfold c17_face_row_body. rewrite Hws.
     eexists. split; [reflexivity|]. split.
     - rewrite c17_scatter_length, repeat_length. reflexivity.
     - intros f r Hf.
@@ -455,22 +460,24 @@ Section Face.
   Qed.
 
   Corollary c17_face_row_spec m t data :
+    t <> [] ->
     std_table m t -> c17_nodes_ok t (length data) ->
     exists res, c17_face_row agg t data = Some res /\ length res = length t /\
       forall f r, nth_error t f = Some r -> nth_error res f = Some (Some (c17_ref data r)).
   Proof.
-    intros Ht Hn. apply (c17_face_row_with_spec m t _ data Ht Hn). apply c17_argsort_is_argsort.
+    intros Hne Ht Hn. apply (c17_face_row_with_spec m t _ data Hne Ht Hn). apply c17_argsort_is_argsort.
   Qed.
 
   (* the result does not depend on which argsort NumPy returns (its default sort is unstable) *)
   Theorem c17_argsort_free m t S data :
+    t <> [] ->
     std_table m t -> c17_nodes_ok t (length data) ->
     c17_is_argsort (n_nodes_per_face t) S ->
     c17_face_row_with agg S t data = c17_face_row agg t data.
   Proof.
-    intros Ht Hn Hs.
-    destruct (c17_face_row_with_spec m t S data Ht Hn Hs) as (r1 & -> & L1 & P1).
-    destruct (c17_face_row_spec m t data Ht Hn) as (r2 & -> & L2 & P2).
+    intros Hne Ht Hn Hs.
+    destruct (c17_face_row_with_spec m t S data Hne Ht Hn Hs) as (r1 & -> & L1 & P1).
+    destruct (c17_face_row_spec m t data Hne Ht Hn) as (r2 & -> & L2 & P2).
     f_equal. apply nth_error_ext_local. intros f.
     destruct (nth_error t f) as [r|] eqn:E.
     - rewrite (P1 f r E), (P2 f r E). reflexivity.
@@ -496,16 +503,17 @@ Proof.
 Qed.
 
 Theorem c17_node_to_face_spec {A B} (agg : list A -> B) (d : A) m t n_node (data : list (list A)) :
+  t <> [] ->
   std_table m t -> c17_nodes_ok t n_node -> Forall (fun v => length v = n_node) data ->
   exists res, c17_node_to_face agg t data = Some res /\
     Forall2 (fun v row => length row = length t /\
                forall f r, nth_error t f = Some r ->
                            nth_error row f = Some (Some (c17_ref agg d v r))) data res.
 Proof.
-  intros Ht Hn Hd. unfold c17_node_to_face.
+  intros Hne Ht Hn Hd. unfold c17_node_to_face.
   apply c17_all_some_Forall2. intros v Hv.
   rewrite Forall_forall in Hd. pose proof (Hd v Hv) as Hl. rewrite <- Hl in Hn.
-  destruct (c17_face_row_spec agg d m t v Ht Hn) as (res & H1 & H2 & H3).
+  destruct (c17_face_row_spec agg d m t v Hne Ht Hn) as (res & H1 & H2 & H3).
   exists res. auto.
 Qed.
 
@@ -666,53 +674,69 @@ Proof.
     + apply IH; [intros H; apply Hd; right; exact H|lia].
 Qed.
 
-(* dispatch: numbers are produced only for node-centred data with destination face or edge *)
+(* dispatch: numbers are produced only for node-centred data whose LAST dimension is n_node, with
+   destination face or edge *)
+Lemma c17_last_app (lead : list c17_dim) x d : last (lead ++ [x]) d = x.
+Proof. induction lead as [|y l IH]; [reflexivity|]. simpl. destruct (l ++ [x]) eqn:E; [destruct l; discriminate|exact IH]. Qed.
+
+Lemma c17_last_eq_app (dims : list c17_dim) x : dims <> [] -> last dims x = x -> exists lead, dims = lead ++ [x].
+Proof.
+  intros Hne Hl. destruct (exists_last Hne) as (lead & y & ->). exists lead.
+  rewrite c17_last_app in Hl. subst. reflexivity.
+Qed.
+
 Theorem c17_dispatch_run dims dest k :
   c17_dispatch dims dest = C17_run k <->
-  In C17_n_node dims /\ dest = Some k /\ (k = C17_to_face \/ k = C17_to_edge).
+  (exists lead, dims = lead ++ [C17_n_node]) /\ dest = Some k /\ (k = C17_to_face \/ k = C17_to_edge).
 Proof.
-  unfold c17_dispatch. rewrite <- c17_has_In. split.
+  unfold c17_dispatch. split.
   - destruct dest as [dd|]; [|discriminate].
-    destruct (c17_has C17_n_node dims).
-    + destruct dd; intros H; try discriminate; injection H as <-; auto.
+    destruct (c17_has C17_n_node dims) eqn:Eh.
+    + destruct (c17_dim_eqb (last dims C17_n_node) C17_n_node) eqn:El; simpl; [|discriminate].
+      apply c17_dim_eqb_eq in El. apply c17_has_In in Eh.
+      assert (Hne : dims <> []) by (intros ->; destruct Eh).
+      destruct dd; intros H; try discriminate; injection H as <-;
+        (split; [apply c17_last_eq_app; assumption|split; [reflexivity|auto]]).
     + destruct (c17_has C17_n_edge dims); [discriminate|].
       destruct (c17_has C17_n_face dims); discriminate.
-  - intros (-> & -> & [-> | ->]); reflexivity.
+  - intros ((lead & ->) & -> & Hk).
+    assert (Eh : c17_has C17_n_node (lead ++ [C17_n_node]) = true)
+      by (apply c17_has_In; apply in_or_app; right; left; reflexivity).
+    rewrite Eh, c17_last_app.
+    assert (El : c17_dim_eqb C17_n_node C17_n_node = true) by reflexivity.
+    rewrite El. simpl. destruct Hk as [-> | ->]; reflexivity.
 Qed.
 
 Theorem c17_dispatch_raises dims dest :
-  (~ In C17_n_node dims \/ dest = None \/ dest = Some C17_to_node \/ dest = Some C17_to_bad) ->
+  (~ In C17_n_node dims \/ last dims C17_n_node <> C17_n_node \/
+   dest = None \/ dest = Some C17_to_node \/ dest = Some C17_to_bad) ->
   c17_dispatch dims dest = C17_ValueError \/ c17_dispatch dims dest = C17_NotImplemented.
 Proof.
   intros H. destruct (c17_dispatch dims dest) as [k| |] eqn:E; auto.
-  apply c17_dispatch_run in E. destruct E as (Hn & -> & Hk).
-  destruct H as [H|[H|[H|H]]]; try contradiction; try discriminate;
-    injection H as ->; destruct Hk; discriminate.
+  apply c17_dispatch_run in E. destruct E as ((lead & ->) & -> & Hk).
+  destruct H as [H|[H|[H|[H|H]]]].
+  - exfalso. apply H. apply in_or_app. right. left. reflexivity.
+  - exfalso. apply H. apply c17_last_app.
+  - discriminate.
+  - injection H as ->. destruct Hk; discriminate.
+  - injection H as ->. destruct Hk; discriminate.
 Qed.
 
-(* the faithful model when the node dimension is NOT last: dims (n_node, t) of shape (8, 8) on a
-   grid with 4 faces / 8 nodes.  The kernel indexes the last axis with node indices, succeeds, and
-   the result is labelled ('n_face', t) with shape (8, 4): its n_face dimension has length 8. *)
+(* node-centred data whose node dimension is not the last one: ValueError for every destination
+   (before the fix the kernel indexed the last axis with node indices and returned numbers under a
+   mislabelled dimension) *)
+Theorem c17_notlast_raises dims dest :
+  In C17_n_node dims -> last dims C17_n_node <> C17_n_node ->
+  c17_dispatch dims dest = C17_ValueError.
+Proof.
+  intros Hin Hl. unfold c17_dispatch. destruct dest as [dd|]; [|reflexivity].
+  apply c17_has_In in Hin. rewrite Hin.
+  destruct (c17_dim_eqb (last dims C17_n_node) C17_n_node) eqn:E; [|reflexivity].
+  apply c17_dim_eqb_eq in E. contradiction.
+Qed.
+
 Definition c17_wit_table : table :=
   [[0;1;2;FILL;FILL];[0;2;3;4;FILL];[0;4;5;6;7];[1;0;7;FILL;FILL]].
-Definition c17_wit_data : list (list Z) := map (fun i => map (fun j => 8 * i + j) (c17_iota 8)) (c17_iota 8).
-
-Theorem c17_dims_notlast_refuted :
-  exists dims shape n_face (t : table) (data : list (list Z)),
-    c17_dispatch dims (Some C17_to_face) = C17_run C17_to_face /\
-    n_face = Z.of_nat (length t) /\ std_table 5 t /\
-    (exists res, c17_node_to_face (fun l => fold_left Z.add l 0) t data = Some res) /\
-    c17_dim_size (c17_result_dims dims C17_to_face) (c17_result_shape shape n_face) C17_n_face <> Some n_face.
-Proof.
-  exists [C17_n_node; C17_other 0], [8; 8], 4, c17_wit_table, c17_wit_data.
-  split; [reflexivity|]. split; [reflexivity|]. split.
-  - unfold std_table, c17_wit_table. repeat constructor; try reflexivity.
-    + exists [0;1;2], 2%nat. split; [reflexivity|]. repeat constructor; lia.
-    + exists [0;2;3;4], 1%nat. split; [reflexivity|]. repeat constructor; lia.
-    + exists [0;4;5;6;7], 0%nat. split; [reflexivity|]. repeat constructor; lia.
-    + exists [1;0;7], 2%nat. split; [reflexivity|]. repeat constructor; lia.
-  - split; [vm_compute; eexists; reflexivity|]. vm_compute. intros H. discriminate.
-Qed.
 
 (* ------------------------------------------------------------------------- *)
 (* non-vacuity                                                                 *)
@@ -771,5 +795,16 @@ Example c17_dispatch_examples :
   c17_dispatch [C17_n_edge] (Some C17_to_face) = C17_NotImplemented /\
   c17_dispatch [C17_other 3] (Some C17_to_face) = C17_ValueError /\
   c17_dispatch [C17_n_node] (Some C17_to_node) = C17_ValueError /\
-  c17_dispatch [C17_n_node] None = C17_ValueError.
+  c17_dispatch [C17_n_node] None = C17_ValueError /\
+  c17_dispatch [C17_n_node; C17_other 0] (Some C17_to_face) = C17_ValueError /\
+  c17_dispatch [C17_other 0; C17_n_node; C17_other 1] (Some C17_to_edge) = C17_ValueError.
 Proof. repeat split; reflexivity. Qed.
+
+(* hypotheses of c17_notlast_raises are satisfiable *)
+Example c17_notlast_nonvacuous :
+  In C17_n_node [C17_n_node; C17_other 0] /\ last [C17_n_node; C17_other 0] C17_n_node <> C17_n_node.
+Proof. split; [left; reflexivity|simpl; discriminate]. Qed.
+
+(* no faces: no array *)
+Example c17_no_faces : c17_face_row (fun l => fold_left Z.add l 0) [] [1; 2; 3] = None.
+Proof. reflexivity. Qed.
